@@ -393,7 +393,43 @@ def r18_9(ctx):
     ctx.floor('R18.9', 'CanonicalOperator construction sites', n, 4)
 
 
+def r18_10(ctx):
+    """A multi-index kept in a LIST must be converted to a tuple before it subscripts an array: `E[[j, k]]` (a list, or a slice
+    of a list) is numpy's fancy indexing along axis 0 -- it addresses the ROWS j and k, and raises IndexError when k exceeds
+    the first extent -- not the entry (j, k)."""
+    n = 0
+    for mod in (T, LR):
+        for fi in ctx.prog.funcs_in(mod, include_nested=True):
+            # names that hold a multi-index as a list: bound by list(...) / [..] and filled from .shape or np.unravel_index
+            lists = set()
+            for s_ in own_nodes(fi.node):
+                if isinstance(s_, ast.Assign) and len(s_.targets) == 1 and isinstance(s_.targets[0], ast.Name):
+                    v = s_.value
+                    if (isinstance(v, ast.Call) and call_name(v) == 'list') or isinstance(v, (ast.List, ast.ListComp)):
+                        if '.shape' in src(v) or 'unravel_index' in src(v):
+                            lists.add(s_.targets[0].id)
+            if not lists:
+                continue
+            for sub in [x for x in ast.walk(fi.node) if isinstance(x, ast.Subscript)]:
+                idx = sub.slice
+                base = None
+                if isinstance(idx, ast.Name) and idx.id in lists:
+                    base = idx.id
+                elif isinstance(idx, ast.Subscript) and isinstance(idx.value, ast.Name) and idx.value.id in lists and isinstance(idx.slice, ast.Slice):
+                    base = idx.value.id
+                if base is None or (isinstance(sub.value, ast.Name) and sub.value.id in lists):
+                    continue
+                n += 1
+                ctx.violated('R18.10', fi.qual, src(sub), sub,
+                             'the list `%s` holds a multi-index; used as a subscript it (or a slice of it) selects whole rows by fancy indexing '
+                             'instead of one entry, and raises IndexError when an index exceeds the first extent (aca_3d on a 2 x 2 x 7 tensor of '
+                             'rank 2: IndexError: index 3 is out of bounds for axis 0 with size 2)' % base)
+    if n == 0:
+        ctx.met('R18.10', LR + '.aca_3d', 'multi-indices subscript arrays as tuples', ctx.prog.func(LR + '.aca_3d').node, 'no list used as a multi-index')
+
+
 def run(ctx):
+    r18_10(ctx)
     r18_9(ctx)
     r18_8(ctx)
     r18_1(ctx)
